@@ -247,6 +247,9 @@ func (p *Prog) computeWriteSets() {
 							continue
 						}
 					}
+					if nt, isNamed := types.Unalias(cc.Value.Type()).(*types.Named); isNamed && nt.Obj().Pkg() != nil && nt.Obj().Pkg().Path() == "context" && nt.Obj().Name() == "CancelFunc" {
+						continue
+					}
 					w.setAll("call of function value in " + fn.Name())
 				}
 			}
@@ -276,20 +279,34 @@ func (p *Prog) addContractFrame(w *wset, fc *FuncContract) {
 		w.setAll("contract modifies * of " + fc.Key())
 		return
 	}
-	if len(fc.Modifies) > 0 {
-		// resolved precisely only at call sites; be conservative here
+	for _, m := range fc.Modifies {
+		// ghost state named in a modifies clause is tracked by name; other locations are resolved only at call
+		// sites, so be conservative there
+		root := m
+		for root.K == "idx" || root.K == "sel" {
+			root = root.A[0]
+		}
+		if root.K == "id" && p.ghost(root.Name) != nil {
+			w.add("ghost:" + root.Name)
+			continue
+		}
+		if m.K == "un" && m.Op == "*" {
+			// pointee of an argument: covered by the argument rule of the caller
+			continue
+		}
 		w.setAll("contract with modifies clause: " + fc.Key())
+		return
 	}
 }
 
 func (p *Prog) addCallee(w *wset, caller, callee *ssa.Function, cc *ssa.CallCommon, calls map[*ssa.Function][]*ssa.Function) {
-	if fc := p.ContractForFunc(callee); fc != nil && callee.Synthetic == "" {
+	if fc := p.ContractForFunc(callee); fc != nil && (callee.Synthetic == "" || len(callee.Blocks) == 0) {
 		if fc.ModAll || len(fc.Modifies) > 0 {
 			if len(callee.Blocks) > 0 && isRepoFunc(callee) {
 				calls[caller] = append(calls[caller], callee)
 				return
 			}
-			w.setAll("contract with modifies clause: " + fc.Key())
+			p.addContractFrame(w, fc)
 		}
 		return
 	}
